@@ -200,4 +200,10 @@ def split_array(data, f_sample_num=None, t_sample_num=None,
     if f_trim:
         split_data = list(filter(lambda A: A.shape[1] == f_sample_num,
                                  split_data))
+    if len(set(A.shape for A in split_data)) > 1:
+        # Ragged frames can't be stacked; return them in a 1D object array
+        ragged_data = np.empty(len(split_data), dtype=object)
+        for i, A in enumerate(split_data):
+            ragged_data[i] = A
+        return ragged_data
     return np.array(split_data)
